@@ -70,6 +70,15 @@ def random_range(rng, b, s):
     if k == 2 and s:  # crossing the sign boundary
         return -rng.range(1, min(-lo_t, 1000)), rng.range(0, min(hi_t, 1000)), rng.below(2)
     if k == 3:  # empty / reversed
+        j = rng.below(4)
+        if j == 0:   # the wrap-around corners: an exclusive range ending at the type's minimum, an inclusive one starting above its maximum's predecessor
+            return rng.choice([lo_t, lo_t + 1, 0, hi_t, rng.range(lo_t, hi_t)]), lo_t, 0
+        if j == 1:   # equal bounds, exclusive: empty
+            v = rng.choice([lo_t, hi_t, 0, rng.range(lo_t, hi_t)])
+            return v, v, 0
+        if j == 2:   # reversed by one
+            v = rng.range(lo_t + 1, hi_t)
+            return v, v - 1, rng.below(2)
         v = rng.range(lo_t, hi_t)
         w = rng.range(lo_t, hi_t)
         lo, hi = max(v, w), min(v, w)
